@@ -100,6 +100,27 @@ Lemma q_ok_cons : forall (it : witem) t,
    && forallb (fun p => Nat.ltb (snd p) K_WAIT) (q_waits (mon2_of (it :: t))))%bool.
 Proof. intros. reflexivity. Qed.
 
+Lemma q_ok_step : forall (t' : trace) (it : witem) t, t' = it :: t ->
+  q_ok (mon2_of t') =
+  (q_ok (mon2_of t)
+   && match it_ev it with ERet _ RPanic => false | _ => true end
+   && implb (is_nil (adds_in_flight t')) (Z.eqb (fst (it_obs it)) (sum_deltas t'))
+   && implb (is_nil (adds_in_flight t') && Z.eqb (sum_deltas t') 0)
+            (forallb (fun x => memb x (snd (it_obs it))) (handed_out t'))
+   && match it_ev it with
+      | ERet CWait (RChan x) =>
+          implb (is_nil (adds_in_flight t') && (0 <? sum_deltas t'))
+                (negb (memb x (snd (it_obs it))))
+      | _ => true
+      end
+   && forallb (fun p => Nat.ltb (snd p) K_WAIT) (q_waits (mon2_of t')))%bool.
+Proof. intros t' it t ->. apply q_ok_cons. Qed.
+
+Lemma q_waits_step : forall (t' : trace) (it : witem) t, t' = it :: t ->
+  q_waits (mon2_of t')
+  = waits_next (it_tid it) (it_ev it) (is_nil (adds_in_flight t)) (q_waits (mon2_of t)).
+Proof. intros t' it t ->. apply q_waits_cons. Qed.
+
 (* ---------------------------------------------------------------- the extra invariant *)
 Record Inv2 (cf : wg_config) : Prop := {
   j_ok : q_ok (mon2_of (tr cf)) = true;
@@ -121,7 +142,7 @@ Proof.
   (* the wait entries after the step *)
   assert (Hw' : forall p, In p (q_waits (mon2_of (tr cf'))) ->
             snd p = O /\ exists todo, nth_error (thr cf') (fst p) = Some (Run CWait W0 todo)).
-  { intros p Hp. rewrite Htr, q_waits_cons in Hp. cbn [it_tid it_ev] in Hp.
+  { intros p Hp. rewrite (q_waits_step _ _ _ Htr) in Hp. cbn [it_tid it_ev] in Hp.
     unfold waits_next in Hp.
     set (f := fun p0 : nat * nat =>
                 if Nat.eqb (fst p0) tid && is_nil (adds_in_flight (tr cf))
@@ -161,9 +182,7 @@ Proof.
     - destruct (Hmapped _ Hp) as [H1 H2];
           destruct (Nat.eq_dec (fst p) tid) as [E|N]; [exfalso; exact (H2 E)|exact (H1 N)]. }
   constructor; [|exact Hw'].
-  pose proof Hw' as Hw''. rewrite Htr in Hw''.
-  rewrite Htr, q_ok_cons. cbn [it_ev it_obs it_tid]. rewrite (j_ok _ HJ). cbn [andb].
-  rewrite <- Htr.
+  rewrite (q_ok_step _ _ _ Htr). cbn [it_ev it_obs it_tid]. rewrite (j_ok _ HJ). cbn [andb].
   (* no panic *)
   replace (match e with ERet _ RPanic => false | _ => true end) with true
     by (destruct e as [c|c r| |]; auto; destruct r; auto; destruct Hnp).
@@ -191,9 +210,10 @@ Proof.
                end = true).
   { destruct e as [c|c r| |]; auto. destruct c; auto. destruct r as [n|x|]; auto.
     destruct (is_nil (adds_in_flight (tr cf'))) eqn:R; auto. apply is_nil_true in R.
-    destruct (Z.ltb_spec 0 (sum_deltas (tr cf'))) as [Z0|Z0]; auto. cbn.
-    rewrite (Hchan x eq_refl). fold cf'.
-    destruct (memb (chn (sh cf')) (closed (sh cf'))) eqn:M; auto. apply memb_In in M. exfalso.
+    destruct (Z.ltb_spec 0 (sum_deltas (tr cf'))) as [Z0|Z0]; auto. cbn [andb implb].
+    rewrite (Hchan x eq_refl). fold cf'. cbn [wg_observe snd].
+    destruct (memb (chn (sh cf')) (closed (sh cf'))) eqn:M; [|reflexivity].
+    apply memb_In in M. exfalso.
     apply (proj2 (sentinel_iff_zero _ HI')); auto. rewrite (rest_count _ HI' R). lia. }
   rewrite Q3. cbn [andb].
   (* q4 *)
